@@ -121,6 +121,7 @@ pub assume_specification<T, F: FnMut(&T, &T) -> core::cmp::Ordering> [<[T]>::sor
     ensures
         exists|p: Seq<int>| is_perm(p, old(s)@.len() as int) && final(s)@.len() == old(s)@.len()
             && forall|i: int| 0 <= i < old(s)@.len() ==> #[trigger] final(s)@[i] == old(s)@[p[i]],
+        final(s)@.to_multiset() == old(s)@.to_multiset(),
         forall|i: int, j: int| #![trigger final(s)@[i], final(s)@[j]] 0 <= i < j < final(s)@.len() ==>
             exists|o: core::cmp::Ordering| #[trigger] f.ensures((&final(s)@[i], &final(s)@[j]), o) && o != core::cmp::Ordering::Greater;
 
